@@ -294,6 +294,7 @@ def run(F, res, tier):
     accessor_rules(F, res, pure, kinds)
     slot_coverage(F, res, pure, kinds)
     literal_lexemes(F, res, R)
+    delimiters_belong_to_their_node(F, res)
 
 
 def thorough(F, res):
@@ -532,3 +533,45 @@ def literal_lexemes(F, res, R):
     best2 = munch("0.name")
     res.ob("G6", "adjacent/tuple-index-then-field", "in `t.0.name` the text `0.` is lexed as INTEGER then `.`", ti and best2 == ("INTEGER", 1),
            where="crates/syntax/src/kind.rs", how="longest match at `0.name`: %s (%d characters)" % best2)
+
+
+def delimiters_belong_to_their_node(F, res, rule="G7"):
+    """G7: "the boundaries the source intended": a construct written between an opening and a closing delimiter is one node that
+    contains both. In a parser function that consumes an opener and its closer (expect/eat of `(`..`)`, `[`..`]`, `{`..`}`,
+    `<<`..`>>`), no node that is finished after the closer may be started between the two: its opener would lie outside
+    it, and every node later wrapped around it with start_node_before begins behind the opener - `<<1>> |> g` grouped as
+    `<<` followed by PIPE(`1>>`, g)."""
+    PAIRS = {"L_PAREN": "R_PAREN", "L_SQUARE": "R_SQUARE", "L_BRACE": "R_BRACE", "LT_LT": "GT_GT"}
+    npairs, bad = 0, []
+    for p, f in sorted(F.fns.items()):
+        if not p.startswith("syntax::parser::") or not f.blocks or "{closure" in p:
+            continue
+        d = FL.Defs(f)
+        cons, starts, fins = [], [], []
+        for b, t in f.calls():
+            last = FL.short(callee(t) or callee_def(t) or "").rsplit("::", 1)[-1]
+            if last in ("expect", "eat") and len(t["args"]) > 1:
+                k = FL.kind_of_operand(f, d, t["args"][1])
+                if k:
+                    cons.append((b, k, t["ln"]))
+            elif last == "start_node":
+                starts.append((b, t))
+            elif last == "finish_node":
+                fins.append((b, t))
+        for bo, ko, lo in cons:
+            for bc, kc, lc in cons:
+                if PAIRS.get(ko) != kc or not f.can_reach(bo, [bc]):
+                    continue
+                npairs += 1
+                for bs, ts in starts:
+                    if bs == bo or not (f.dominates(bo, bs) and f.dominates(bs, bc)):
+                        continue
+                    ml = ts["dest"]["l"]
+                    done = [bf for bf, tf in fins if f.can_reach(bc, [bf]) and ((tf["args"][1].get("mv") or tf["args"][1].get("cp") or {}).get("l") == ml or
+                                                                                d.origin_op(tf["args"][1]).get("l") == ml)]
+                    if done:
+                        bad.append("%s: %s at line %d is consumed before the node started at line %d, its %s at line %d inside" % (
+                            p.rsplit("::", 1)[-1], ko, lo, ts["ln"], kc, lc))
+    res.floor("opener/closer pairs consumed within one parser function", npairs, 13)
+    res.ob(rule, "delimiters/inside-their-node", "the opening delimiter of a bracketed construct is consumed inside the node that contains its closing "
+           "delimiter", not bad, where="crates/syntax/src/parser.rs", how="; ".join(bad) or "%d pairs, each on one side of every node start" % npairs)
